@@ -165,6 +165,7 @@ def structure(snap, dim):
     hs = np.concatenate([s['h'] for s in snap]) if snap else np.zeros(0)
     facts['h_ratio'] = float(hs.max() / hs.min()) if len(hs) and \
         hs.min() > 0 else 1.0
+    facts['hmax'] = float(hs.max()) if len(hs) else 0.0
     if tot:
         ext = []
         for c in 'xyz':
@@ -184,6 +185,13 @@ def condition(cls, facts, knobs):
         return 'coincident>=leaf'
     if facts.get('empty_array'):
         return 'empty-array'
+    if facts.get('degenerate_box') and facts.get('total', 0) >= 1 and \
+            0 < facts.get('hmax', 1.0) < 1e-3 and (
+                cls == 'LinkedListNNPS' or (
+                    cls == 'ExtendedZOrderNNPS' and knobs.get('H', 3) > 1)):
+        # all particles at one point: the box is padded to unit size whatever
+        # the cell size, so the number of cells is ~(1/(radius_scale*h))^dim
+        return 'point-cloud,small-h'
     if cls in ZFAM and len(facts.get('n', [0])) > 1:
         return 'multi-array'
     if cls == 'ExtendedZOrderNNPS' and knobs.get('H', 3) > 1 and \
@@ -338,7 +346,8 @@ def known_crash_key(cls, knobs, case, arrays, dim):
     if will_have_empty_array(case, arrays):
         f['empty_array'] = True
     cond = condition(cls, f, knobs)
-    if not ((cls in ZFAM and cond == 'empty-array') or
+    if not ((cls in ZFAM and cond in ('empty-array',
+                                      'point-cloud,small-h')) or
             (cls in OFAM and cond == 'coincident>=leaf')):
         return None       # not a condition under which a crash is listed
     key = classify(cls, 'crash', f, case, knobs)
